@@ -3,6 +3,25 @@ from . import common as C
 from .registry import PROPS
 
 
+GENERATED = ["Extracted", "ExtractedLex", "ExtractedGlobals", "CliExtracted"]
+
+
+def restore_generated():
+    """The regenerated fact files are proof inputs of some properties only.  Every check starts (and
+    ends) from the committed baseline copies, so a check that broke or removed one of them (e.g. an
+    extractor failing closed on a modified tree) cannot disturb the next check."""
+    base = os.path.join(C.LEAN, "baseline")
+    for name in GENERATED:
+        src = os.path.join(base, name + ".lean.txt")
+        dst = os.path.join(C.LEAN, "Vore", name + ".lean")
+        if os.path.exists(src):
+            cur = open(dst).read() if os.path.exists(dst) else None
+            want = open(src).read()
+            if cur != want:
+                with open(dst, "w") as f:
+                    f.write(want)
+
+
 class Ctx:
     def __init__(self, prop, tier, seed):
         self.prop, self.tier, self.seed = prop, tier, seed
@@ -34,6 +53,7 @@ def main(argv):
     t0 = time.time()
     shutil.rmtree(ctx.workdir, ignore_errors=True)
     os.makedirs(ctx.workdir, exist_ok=True)
+    restore_generated()
     if args.replay:
         return replay(ctx, spec, args.replay)
 
@@ -97,6 +117,7 @@ def main(argv):
 
 
 def finish(ctx, spec, proof, t0):
+    restore_generated()
     known = [k for k in C.load_known_findings() if k.get("property") == ctx.prop]
     out_lines = []
     nviol = 0
